@@ -69,10 +69,13 @@ fn run_schedule(sched: &Value, out: &mut Out, id: usize) -> bool {
     let hist = sched["hist"].as_array().cloned().unwrap_or_default();
     verif::sixel_gate_enable(true);
     let mut buf = Buffer::create((80, 25));
-    buf.is_terminal_buffer = true;
+    // the queue lives in the buffer whatever it is used for: terminal buffers and the non-terminal buffers the file loaders and the
+    // editor use, cleared by form feed or by CSI 2 J (configuration classes, rotated over the schedules)
+    buf.is_terminal_buffer = id % 2 == 0;
+    let clear_seq: &str = if (id / 2) % 2 == 0 { "\x0c" } else { "\x1b[2J" };
     let mut caret = Caret::default();
     let mut parser = ansi::Parser::default();
-    out.ev(&json!({"ev":"reset","case":id,"rect":cfg,"k":sched["k"],"rects":prs}));
+    out.ev(&json!({"ev":"reset","case":id,"rect":cfg,"k":sched["k"],"rects":prs,"terminal":buf.is_terminal_buffer,"clear":clear_seq.len()}));
     let mut submitted: Vec<usize> = vec![];
     let mut was_blocked = false;
     let mut popped = 0usize; // handles no longer in the queue (delivered or cleared)
@@ -134,7 +137,7 @@ fn run_schedule(sched: &Value, out: &mut Out, id: usize) -> bool {
             }
             "clear" => {
                 let before = buf.sixel_threads.len();
-                let _ = parser.print_char(&mut buf, 0, &mut caret, '\x0c');
+                for ch in clear_seq.chars() { let _ = parser.print_char(&mut buf, 0, &mut caret, ch); }
                 popped += before - buf.sixel_threads.len();
             }
             _ => {}
